@@ -8,6 +8,6 @@ CONSTANTS
   KsIdx = {1, 4, 9}
   TailLen = 0
   Variants = TRUE
-  ExtraKs = {1, 4, 9}
+  ExtraKs = {4}
 INVARIANTS CheckAndEmit
 CHECK_DEADLOCK FALSE
